@@ -11,7 +11,7 @@ from .values import OutsideSubset
 VERIF = api.VERIF
 PROP_MODULES = {
     "C04": ["contracts.c04", "contracts.c05"],
-    "C05": ["contracts.c05"],
+    "C05": ["contracts.c05", "contracts.c05_bounded"],
     "C13": ["contracts.c13"],
     "C14": ["contracts.c14", "contracts.c14_bounded", "contracts.c08"],
     "C08": ["contracts.c08"],
@@ -19,6 +19,9 @@ PROP_MODULES = {
     "C10": ["contracts.c10"],
     "C18": ["contracts.c18", "contracts.c18_bounded"],
 }
+
+
+_search_cache = {}
 
 
 def load_known_findings():
@@ -87,7 +90,32 @@ def run_property(prop, tier="quick", seed=0, only=None, verbose=False):
         if st == "proved":
             continue
         if st in ("unknown", "error"):
-            undecided.append(f"{rec.id}: {st} ({rec.result.get('reason')})")
+            # the solver could not decide: search the contract's small native domain for a failing input of the REAL function
+            found = None
+            if isinstance(rec.contract, api.Contract):
+                key = ("search", rec.contract.id)
+                if key not in _search_cache:
+                    _search_cache[key] = None
+                    t1 = time.time()
+                    try:
+                        for cand in rec.contract.candidates():
+                            rp2 = rec.contract.replay(cand)
+                            if rp2 not in (None, "no-replay"):
+                                _search_cache[key] = (cand, rp2)
+                                break
+                            if time.time() - t1 > 30:
+                                break
+                    except Exception:
+                        pass
+                found = _search_cache[key]
+            if found is None:
+                undecided.append(f"{rec.id}: {st} ({rec.result.get('reason')})")
+                continue
+            rec.result["status"] = "refuted"
+            rec.result["solver"] = (rec.result.get("solver") or "") + " unknown; failing input found by native search of the contract's candidate domain"
+            rec.result["model"] = found[0]
+            rec.replay = found[1]
+            violations.append(rec)
             continue
         # refuted: replay on the real code
         vals = rec.result.get("model", {})
